@@ -1,1 +1,19 @@
 // harness bodies for h2 src/proto/peer.rs (compiled in-crate as `verif_h`, feature "verif")
+use super::*;
+
+/// Rule-7 stub for `peer::Dyn::convert_poll_message`: the http-crate builders are not
+/// the subject of the counting/ordering obligations; returns an arbitrary `Ok`
+/// (an empty message of the right role) or a stream error.
+pub(crate) fn stub_convert_poll_message(this: &Dyn, pseudo: Pseudo, fields: HeaderMap, stream_id: StreamId) -> Result<PollMessage, Error> {
+    std::mem::forget(pseudo);
+    std::mem::forget(fields);
+    if kani::any() {
+        if this.is_server() {
+            Ok(PollMessage::Server(Request::new(())))
+        } else {
+            Ok(PollMessage::Client(Response::new(())))
+        }
+    } else {
+        Err(Error::library_reset(stream_id, Reason::PROTOCOL_ERROR))
+    }
+}
